@@ -11,6 +11,7 @@ from . import solve, globals as globmod
 
 ROOT = os.path.dirname(os.path.dirname(os.path.abspath(__file__)))
 REPO = os.environ.get("VERIF_REPO", "/repo")
+REPLAY_CAP = int(os.environ.get("VERIF_REPLAY_CAP", "4"))
 
 
 class Ctx:
@@ -143,6 +144,7 @@ def _run_task(i):
         s, _ = solve.check_sat(f, ctx.timeout_ms)
         out["covers"].append({"name": prop + "/" + nm, "result": s, "time_s": round(time.time() - t1, 3)})
     from . import replay
+    nreplayed = 0
     for ob in r.obligs:
         if getattr(task, "keep", None) is not None and not task.keep(ob.name):
             continue
@@ -154,7 +156,11 @@ def _run_task(i):
             d["detail"] = str(ob.info["detail"])[:3000]
         if getattr(res, "agree", None):
             d["agree"] = res.agree
-        if res.status == "sat" and not d["expect_fail"]:
+        if res.status == "sat" and not d["expect_fail"] and nreplayed >= REPLAY_CAP:
+            # a change that breaks hundreds of obligations at once: the first few are replayed, the rest only reported
+            d["replay"] = {"status": "not-replayed", "reason": "replay budget of %d per task used up" % REPLAY_CAP}
+        elif res.status == "sat" and not d["expect_fail"]:
+            nreplayed += 1
             try:
                 d["replay"] = replay.replay(ctx, prop, ob, res)
             except Exception as ex:
@@ -207,7 +213,16 @@ def run_property(prop, build_tasks, level="proof", tier="quick", seed=0, assumpt
             outs = pool.map(_run_task, range(len(tasks)), chunksize=1)
     else:
         outs = [_run_task(i) for i in range(len(tasks))]
-    return report(ctx, prop, outs, level, tier, seed, assumptions, trusted, t0, evid_path, extra_cov)
+    extra2 = extra_cov
+    if tier == "thorough":
+        from . import thorough
+        tinfo = thorough.extras(ctx, prop, outs, corpus=not os.environ.get("VERIF_NESTED") and not os.environ.get("VERIF_ONLY"))
+
+        def extra2(c, o, _t=tinfo, _e=extra_cov):
+            d = dict(_e(c, o)) if _e else {}
+            d.update(_t)
+            return d
+    return report(ctx, prop, outs, level, tier, seed, assumptions, trusted, t0, evid_path, extra2)
 
 
 def write_evidence(path, prop, tier, seed, level, coverage, assumptions, wall, violations):
